@@ -155,7 +155,7 @@ func (c *fxCtx) callAct(call *ast.CallExpr, deferred bool) string {
 		if f.Name == "close" && len(call.Args) == 1 {
 			return ".chclose " + fxStr(c.typed(call.Args[0]))
 		}
-		return ".call " + fxStr(f.Name)
+		return ".call " + fxStr(f.Name+c.constArgs(call))
 	case *ast.FuncLit:
 		if deferred {
 			return ".call \"defer func literal\""
@@ -196,18 +196,24 @@ func (c *fxCtx) constArgs(call *ast.CallExpr) string {
 		return ""
 	}
 	var parts []string
+	consts := 0
 	for _, a := range call.Args {
 		switch x := a.(type) {
 		case *ast.BasicLit:
 			parts = append(parts, x.Value)
+			consts++
+			continue
 		case *ast.Ident:
-			if _, ok := c.info.Uses[x].(*types.Const); !ok {
-				return ""
+			if _, ok := c.info.Uses[x].(*types.Const); ok || x.Name == "true" || x.Name == "false" || x.Name == "nil" {
+				parts = append(parts, x.Name)
+				consts++
+				continue
 			}
-			parts = append(parts, x.Name)
-		default:
-			return ""
 		}
+		parts = append(parts, "_") // not a constant
+	}
+	if consts == 0 {
+		return ""
 	}
 	return "(" + strings.Join(parts, ",") + ")"
 }
